@@ -73,6 +73,12 @@ def build_case(shard, vi, seed, ctor="Sigma", prep="fresh"):
         mx2 = np.concatenate([mx[:1] - 2.0, mx], axis=0)
         p_x = objs.mk_pdf("GaussianPDF", Sx2, mx2).slice(jnp.array(list(range(-Rx, 0))))
         return cond, kw, p_x, (Me, be, Sye, mx, Sx)
+    if prep == "replaced" and kind in ("full", "diag"):
+        # another conditional whose M and b are then replaced through the dataclass replace()
+        other, kw, _ = objs.mk_cond(kind, M * -0.5 + 1.0, b + 2.0, Sy, ctor=ctor)
+        cond = other.replace(M=J(M), b=J(b))
+        p_x = objs.mk_pdf(px_kind, Sx, mx)
+        return cond, kw, p_x, (M, b, Sy, mx, Sx)
     if prep == "updated" and kind == "nncontrol":
         # used with a control variable, then update_Sigma, then used again with the SAME control array object
         cond, kw, (Me, be, Sye) = objs.mk_cond(kind, M, b, Sy * 3.0, ctor=ctor)
@@ -117,7 +123,7 @@ def run(shard, ctx, which):
           if kind == "nncontrol":
               preps = ("fresh", "updated") if vi in (0, 100) else ("fresh",)
           elif ctor in ("Sigma", "b_none") and vi in (0, 100):
-              preps = ("fresh", "sliced", "updated")
+              preps = ("fresh", "sliced", "updated") + (("replaced",) if (kind in ("full", "diag") and ctor == "Sigma") else ())
           else:
               preps = ("fresh",)
           for prep in preps:
